@@ -305,3 +305,43 @@ def version_twin_runs(versions, per_pair=6):
                                                             subsets=[[1, 0, 2, (1 << w) - 2]]))
                         out.append(('%s %06d v%d then v%d' % (form, e, order[0], order[1]), cases))
     return out
+
+
+def near_twin(ch, base):
+    """A message whose unexpanded list equals `base`'s except for one numeric element inside a replication body (the two
+    templates agree on their top-level descriptors); same metadata, freshly drawn values.  None when `base` has no such
+    element.  Raises Reject for ill-formed / ambiguous draws."""
+    inner = []
+
+    def collect(nodes, inside):
+        for nd in nodes:
+            if nd.t in ('R', 'D'):
+                collect(nd.members, True)
+            elif nd.t == 'E' and inside and nd.src is not None and nd.id // 1000 not in (31, 33) and nd.elem.kind == 'num':
+                inner.append(nd)
+    collect(base.tree, False)
+    if not inner:
+        return None
+    nd = ch.choice(inner)
+    local = base.meta['local_table_version']
+    pl = gpool.pool_for(base.meta['master_table_version'], base.meta['originating_centre'] if local else 0,
+                        base.meta['originating_subcentre'] if local else 0, local)
+    ids = list(base.ids)
+    ids[nd.src] = ch.choice(pl.num_all)
+    if ids == base.ids:
+        return None
+    try:
+        c = Case()
+        c.meta, c.ids, c.tables = dict(base.meta), ids, base.tables
+        c.tree = rtree.parse(c.ids, c.tables)
+        src = source_for(ch, base.features)
+        c.decoded = codec.walk_all(c.tree, c.tables, c.meta['n_subsets'], c.meta['is_compressed'], lambda k: src)
+        if c.decoded.ambiguous():
+            raise Reject('ambiguous')
+        c.features = c.decoded.features() | {'near_twin_template'} | ({'all_bits_zero'} & set(base.features))
+        c.features.add('edition%d' % c.meta['edition'])
+        c.features.add('compressed' if c.meta['is_compressed'] else 'uncompressed')
+        build_bytes(c)
+        return c
+    except (IllFormed, Unsupported) as e:
+        raise Reject('illformed: %s' % e)
